@@ -21,6 +21,10 @@ CLAIMED['C19'] = dict(level='proof', design='DESIGN.md section 4 (C19)',
    text='Deductive proof per buffer size (N = 1, 2, 3, 8 with the empty policy; N = 1..4 with the counting policy): every public member of ReadBuffer/WriteBuffer is called once from an arbitrary state satisfying the representation invariant (window mirrors the source / sink ++ buffered = everything appended) and the invariant plus the per-call postconditions are discharged by CBMC; the preconditions of the environment hooks readData/writeData are obligations at every call. An inductive invariant covers every history of request sizes and every chunking of the source, which no finite test list does.',
    note='Harness mode (pre/post as assume/assert around one call of the real member; no assigns-frame check, replaced by guard bytes and exact-size blocks). Per instance, not for all N. Trusted: CBMC C++ front end on the textually instantiated shadow headers (rules incl. R-NSDMI listed in the evidence), stand-in <memory>, environment contract (source delivers 1..len bytes; termination not claimed), ghost normalisations (stream position and counters start at 0).',
    technique='contract-based deductive verification: inductive representation invariant + per-call postconditions discharged by CBMC (harness mode), environment hooks as assumed contracts with checked preconditions')
+CLAIMED['C12'] = dict(level='other', design='DESIGN.md section 4 (C12)',
+   text='Bounded stand-in (never counted as proved beyond the bound): every public member of DynamicBitset, the free binary operators and every iterator constructor/step are called once on an arbitrary bitset of size <= 8 (12 thorough) with arbitrary bits and compared, as named CBMC obligations, with the reference bit-vector semantics; positions and shift distances are full size_t, compound operators are compared with their binary counterparts on the same operands, std::vector<bool> is an assumed-contract stand-in whose operator[] precondition index < size() makes every access outside the bitset an obligation. Level other because the bitset size is bounded.',
+   note='Bounded: size <= CAP, growth/shift results <= 2*CAP+4 (larger results are cut paths). Harness mode (pre/post as assume/assert around one call). Trusted: CBMC C++ front end on the shadow unit (T-INST of the iterator templates, R-COPYCTOR, R-CONST, R-THROW ... listed in the evidence), stand-in <vector>/<algorithm>. to_string, bitset<N> and vector<bool>&& members not under contract. One open known finding (shift distance > SIZE_MAX - size), three defects repaired by fix: commits.',
+   technique='contract-based verification with CBMC in harness mode, bounded (size <= CAP): reference bit-vector postconditions per method over an assumed-contract std::vector<bool>')
 NA = {}
 def main():
     props = [json.loads(l) for l in open(os.path.join(V, 'properties.jsonl'))]
